@@ -216,7 +216,7 @@ def run_case(doc):
     from bioscrape.types import Model
     from bioscrape.simulator import ModelCSimInterface
     C = Counter()
-    viol = []
+    viol = util.ViolList()
     d = build_document(doc)
     d.checkConsistency()
     errs = [d.getError(i) for i in range(d.getNumErrors())]
